@@ -91,7 +91,9 @@ enum Kind { K_BUF, K_REFBUF, K_CNT, K_GENINFO, K_METABUF, K_REPLY, K_RAW, K_GENI
 static const char *kname[] = { "buffer", "refbuffer", "counting", "geninfo", "metabuffer", "reply", "rawdata", "generic", "generic-ref", "cxxtype", "stream", "iobuffer", "node", "item-group" };
 static bool kcountable(int k) { return k != K_GENINFO && k != K_METABUF && k != K_NODE && k != K_GROUP; }
 static bool kpokeable(int k) { return kcountable(k) && k != K_REFBUF && k != K_GENR && k != K_IOBUF; }
-static long g_reply_ctr_off = -(long) sizeof(void *);   // counter position relative to the metatype pointer (refined by the probe)
+// counter word(s) of a reply context relative to its metatype pointer, lowest address first (located by the probe: the implementation
+// may count all holders in one word, or keep a second word for the metatype references only; every word moves with a metatype reference)
+static std::vector<long> g_reply_ctr_offs(1, -(long) sizeof(void *));
 static int g_reply_shareable = -1;   // does a reply context hand out further metatype references (probed on a throw-away instance)
 
 struct Obj {
@@ -166,7 +168,7 @@ struct World {
 		switch (b.kind) {
 		case K_BUF: case K_REFBUF: return (uintptr_t *) b.block;
 		case K_CNT: return &b.cm->cnt;
-		case K_REPLY: return (uintptr_t *) ((char *) b.ptr + g_reply_ctr_off);
+		case K_REPLY: return (uintptr_t *) ((char *) b.ptr + g_reply_ctr_offs[0]);   // first word = all holders
 		case K_RAW: return (uintptr_t *) ((char *) b.ptr + 2 * sizeof(void *));
 		case K_GENI: case K_GENR: return &((metatype::generic *) b.ptr)->_ref._val;
 		case K_CXX: return &((CxxT *) b.ptr)->_ref._val;
@@ -181,7 +183,20 @@ struct World {
 		objs.push_back(b);
 		return (int) objs.size() - 1;
 	}
-	void preset(int o, uintptr_t v) { *counter(o) = v; objs[o].phantom = v - objs[o].handles; }
+	// a preset invents metatype references: every counter word of the object moves by the same amount
+	void shift_counters(int o, uintptr_t delta)
+	{
+		if (objs[o].kind == K_REPLY) { for (long off : g_reply_ctr_offs) *(uintptr_t *) ((char *) objs[o].ptr + off) += delta; }
+		else *counter(o) += delta;
+	}
+	void preset(int o, uintptr_t v) { uintptr_t delta = v - count(o); shift_counters(o, delta); objs[o].phantom += delta; }
+	// before the drain: take the invented references away again (an object held by nothing else keeps one, as a raw reference)
+	void unpreset(int o)
+	{
+		Obj &b = objs[o];
+		shift_counters(o, (uintptr_t) 0 - b.phantom); b.phantom = 0;
+		if (!b.handles) { shift_counters(o, 1); b.handles = 1; ++b.raw; }
+	}
 	void preset_high(int o) { preset(o, UMAX - 1); }
 	bool real_live(int o) const { const Obj &b = objs[o]; return b.kind == K_CNT ? !b.cm->destroyed : ledger_is_live(b.block); }
 	std::string describe() const
@@ -487,9 +502,7 @@ struct BufSys : World {
 	bool drain()
 	{
 		for (size_t o = 0; o < objs.size(); ++o) if (!objs[o].dead && objs[o].phantom) {
-			Obj &b = objs[o];
-			if (!b.handles) { *counter(o) = 1; b.phantom = 0; b.handles = 1; ++b.raw; }
-			else { *counter(o) = b.handles; b.phantom = 0; }
+			unpreset((int) o);
 		}
 		for (int i = 0; i < cfg.nslots; ++i) if (so[i] >= 0) {
 			dstep = "dropping handle %d"; darg = i;
@@ -686,7 +699,9 @@ struct MetaSys : World {
 				size_t nw = blk ? (size_t) (((char *) p - (const char *) blk) / sizeof(uintptr_t)) + 1 : 0;
 				std::vector<uintptr_t> snap((const uintptr_t *) blk, (const uintptr_t *) blk + nw);
 				g_reply_shareable = LIB(p->addref()) ? 1 : 0;
-				for (size_t k = 0; k < nw; ++k) if (snap[k] == 1 && ((const uintptr_t *) blk)[k] == 2) g_reply_ctr_off = (long) ((const char *) blk + k * sizeof(uintptr_t) - (char *) p);
+				std::vector<long> offs;
+				for (size_t k = 0; k < nw; ++k) if (snap[k] == 1 && ((const uintptr_t *) blk)[k] == 2) offs.push_back((long) ((const char *) blk + k * sizeof(uintptr_t) - (char *) p));
+				if (!offs.empty()) g_reply_ctr_offs = offs;
 				if (g_reply_shareable) LIB((p->unref(), 0));
 				LIB((p->unref(), 0));
 			}
@@ -1049,9 +1064,7 @@ struct MetaSys : World {
 	bool drain()
 	{
 		for (size_t o = 0; o < objs.size(); ++o) if (!objs[o].dead && objs[o].phantom) {
-			Obj &b = objs[o];
-			if (!b.handles) { *counter(o) = 1; b.phantom = 0; b.handles = 1; ++b.raw; }
-			else { *counter(o) = b.handles; b.phantom = 0; }
+			unpreset((int) o);
 		}
 		if (usable(grpo)) {
 			dstep = "dropping the item group (object #%d)"; darg = grpo;
